@@ -20,7 +20,7 @@ ASSUMPTIONS = ["the fault plan counts user-code entries of the chosen definition
                "dependency cone computed by vp/model.flatten over the program text",
                "g++-12 -O1 build of the working tree with harness-side shims"]
 FLOORS = {"soft_error_throws": {"quick": 40, "thorough": 600}, "soft_findings_on_the_ordinary_output": {"quick": 60, "thorough": 900}, "captured_throws": {"quick": 300, "thorough": 5000}, "later_activations_checked": {"quick": 400, "thorough": 6000},
-          "outside_cone_runs_compared": {"quick": 5000, "thorough": 80000}, "try_except_cases": {"quick": 100, "thorough": 1500},
+          "outside_cone_runs_compared": {"quick": 5000, "thorough": 80000}, "try_except_cases": {"quick": 70, "thorough": 1500},
           "thrower_not_first_in_child": {"quick": 40, "thorough": 600}, "map_key_throws": {"quick": 150, "thorough": 2500},
           "captured_throw_with_pending_timer": {"quick": 5, "thorough": 100},
           "map_other_key_runs_compared": {"quick": 2000, "thorough": 30000}, "map_error_ticks_checked": {"quick": 150, "thorough": 2500},
